@@ -22,6 +22,8 @@ pub struct Builder {
     context: Context,
     preset: Preset,
     block_content_encoder_map: Option<BlockContentEncoderMap>,
+    #[cfg(noodles_verif)]
+    verif_layout: Option<(usize, usize)>,
 }
 
 impl Builder {
@@ -99,6 +101,13 @@ impl Builder {
         self
     }
 
+    /// Overrides the number of records per slice and slices per container (verification only).
+    #[cfg(noodles_verif)]
+    pub fn verif_set_layout(mut self, records_per_slice: usize, slices_per_container: usize) -> Self {
+        self.verif_layout = Some((records_per_slice, slices_per_container));
+        self
+    }
+
     /// Builds a CRAM writer from a path.
     ///
     /// # Examples
@@ -137,6 +146,12 @@ impl Builder {
 
         let records_per_slice = self.preset.records_per_slice();
         let records_per_container = DEFAULT_SLICES_PER_CONTAINER * records_per_slice;
+
+        #[cfg(noodles_verif)]
+        let (records_per_slice, records_per_container) = match self.verif_layout {
+            Some((n, m)) => (n, n * m),
+            None => (records_per_slice, records_per_container),
+        };
 
         self.context.records_per_slice = records_per_slice;
         self.context.block_content_encoder_map = block_content_encoder_map;
